@@ -489,7 +489,8 @@ def run_impl(impl, ops):
 
 def check_C06(cx):
     thms = ["AL.Properties.C06." + t for t in ["program_code", "program_code_lib", "concat_call", "split_codes", "split_calls"]] + \
-           ["AL.Lemmas.assembleLine_local", "AL.Lemmas.items_eq_itemsL", "AL.Lemmas.asm_layout", "AL.Lemmas.runCodes_layout"]
+           ["AL.Lemmas.assembleLine_local", "AL.Lemmas.items_eq_itemsL", "AL.Lemmas.asm_layout", "AL.Lemmas.runCodes_layout",
+            "AL.Lemmas.Split.call_split", "AL.Lemmas.Split.call_split_err", "AL.Lemmas.Split.count_split", "AL.Lemmas.Split.count_split_err"]
     info = stage_proofs(cx, "AL.Properties.C06", thms)
     impl = build_impl(cx)
     if not (info and impl):
@@ -771,7 +772,8 @@ def check_C13(cx):
 
 def check_C14(cx):
     thms = ["AL.Properties.C14." + t for t in ["count_call", "count_call_small", "crosses_spec", "crossCount_append"]] + \
-           ["AL.Lemmas.cross_iff", "AL.Lemmas.emitOne_count", "AL.Lemmas.runCodes_count", "AL.Lemmas.runCodes_plain_setMC"]
+           ["AL.Lemmas.cross_iff", "AL.Lemmas.emitOne_count", "AL.Lemmas.runCodes_count", "AL.Lemmas.runCodes_plain_setMC",
+            "AL.Lemmas.Split.count_split"]
     info = stage_proofs(cx, "AL.Properties.C14", thms)
     impl = build_impl(cx)
     if not (info and impl):
@@ -2309,8 +2311,12 @@ def os_symbols():
     return syms - own
 
 
-def run_fault(exe, sc, kind, k, tmpdir):
-    p = subprocess.run([exe, sc, kind, str(k), tmpdir], stdout=subprocess.PIPE, stderr=subprocess.PIPE, timeout=120)
+def run_fault(exe, sc, kind, k, tmpdir, err=None):
+    env = dict(os.environ)
+    env.pop("FAULT_ERRNO", None)
+    if err is not None:
+        env["FAULT_ERRNO"] = str(err)
+    p = subprocess.run([exe, sc, kind, str(k), tmpdir], stdout=subprocess.PIPE, stderr=subprocess.PIPE, timeout=120, env=env)
     out = p.stdout.decode("latin1")
     kv = {}
     for ln in out.split("\n"):
@@ -2437,15 +2443,22 @@ def check_C17(cx):
             cx.violations.append({"kind": "crash", "scenario": sc, "fault": "none", "rc": rc, "stderr": err, "what": "scenario crashes without any fault"})
             continue
         counts = {w: int(base.get(w, "0")) for w in WRAPPED}
-        scheds = [("none", 0)] + [(w, k) for w in WRAPPED for k in range(1, counts[w] + 1)]
+        scheds = [("none", 0, None)] + [(w, k, None) for w in WRAPPED for k in range(1, counts[w] + 1)]
         if ":" in sc:
-            scheds = [("mremap", k) for k in range(1, counts["mremap"] + 1)]
+            scheds = [("mremap", k, None) for k in range(1, counts["mremap"] + 1)]
+        else:
+            # the same refusals reported with other reasons (EINTR, EAGAIN; thorough: EIO, ENOSPC too): a refused call is a refused
+            # call whatever errno says
+            for e_ in ((4, 11) if cx.tier == "quick" else (4, 11, 5, 28)):
+                scheds += [(w, k, e_) for w in WRAPPED for k in range(1, counts[w] + 1)]
         if sc in ("file", "file_count"):
-            scheds.append(("shortread", 1))
-        for kind, k in scheds:
+            scheds.append(("shortread", 1, None))
+        for kind, k, errno_ in scheds:
             nsched += 1
-            rc, ended, kv, err = run_fault(impl, sc, kind, k, tmpdir)
+            rc, ended, kv, err = run_fault(impl, sc, kind, k, tmpdir, errno_)
             tag = {"scenario": sc, "fault": kind, "occurrence": k}
+            if errno_ is not None:
+                tag["errno"] = errno_
             if rc != 0 or not ended:
                 cx.violations.append({"kind": "crash", **tag, "rc": rc, "stderr": err,
                                       "what": "the process does not survive the refused OS call (signal or abnormal exit)"})
@@ -2925,7 +2938,8 @@ def hex_tokens(text):
     return "".join(out)
 
 
-C20_THEOREMS = ["usage_error_exits", "exit_zero_iff", "option_calls", "option_calls_spec", "parseFlags_opt", "applyLong_opt", "getlines_join", "file_mode_is_library"]
+C20_THEOREMS = ["usage_error_exits", "exit_zero_iff", "option_calls", "option_calls_spec", "parseFlags_opt", "applyLong_opt", "getlines_join", "file_mode_is_library",
+                 "stdin_equals_file", "stdinLoop_plain", "stdinLoop_counting"]
 
 
 def check_C20(cx):
@@ -2948,6 +2962,8 @@ def check_C20(cx):
              b"xor eax, eax\nbogus rax\nret\n",
              # empty and blank lines directly behind instructions that cross a -b / -c boundary, also as the last lines
              b"mov rax, 0x1122334455667788\n\nret\n", b"nop\nmov rax, 0x1122334455667788\n\n\n  \n\nmov rcx, 0x1122334455667788\n\n\n",
+             # CR-only and CRLF line ends (the library ends a line at either character; getline cuts at LF only)
+             b"mov rax, 0x11\radd rax, 0x22\rret\n", b"nop\r\nmov rcx, 0x1122334455667788\r\nret\r\n",
              b"", b"ret", b"mov rdx, 0x1122334455667788\n" * 700]
     for _ in range(3 if quick else 30):
         progs.append(g.program(r.choice([4, 12, 40])))
@@ -2958,7 +2974,7 @@ def check_C20(cx):
     for pi, prog in enumerate(progs):
         modes = CLI_MODES if pi == 0 else r.sample(CLI_MODES, 4 if quick else 10)
         for mode in modes:
-            for out in (outs if pi < 6 or len(prog) > 6000 else r.sample(outs, 5)):
+            for out in (outs if pi < 8 or len(prog) > 6000 else r.sample(outs, 5)):
                 for stdin in (False, True):
                     cases_.append((pi, mode + out if r.random() < 0.5 else out + mode, stdin))
     # -r on side-effect free programs
